@@ -31,6 +31,32 @@ def _normalize_is_one(ix, cls, rep, f):
     return one and not writers
 
 
+def _is_none_test(t):
+    if isinstance(t, ast.Compare) and len(t.ops) == 1 and isinstance(t.ops[0], (ast.Is, ast.Eq)) and isinstance(t.comparators[0], ast.Constant) \
+            and t.comparators[0].value is None:
+        return E.self_loc(t.left)
+    if isinstance(t, ast.UnaryOp) and isinstance(t.op, ast.Not):
+        return E.self_loc(t.operand)
+    return None
+
+
+def _config_writers(ix, cls):
+    out = []
+    for c in ix.mro(cls):
+        if isinstance(c, ClassInfo):
+            for name, m in c.methods.items():
+                if name in ('set_sampling_period', 'reset') and ix.resolve_method(cls, name) is m:
+                    out.append(m)
+    return out
+
+
+def _assigns_none(m, attr):
+    for st in ast.walk(m.node):
+        if isinstance(st, ast.Assign) and E.self_loc(st.targets[0]) == attr and isinstance(st.value, ast.Constant) and st.value.value is None:
+            return True
+    return False
+
+
 def comparison_shape(ix, rep, cls):
     f = ix.resolve_method(cls, 'update_sampling_violation_counter')
     if f is None:
@@ -56,19 +82,54 @@ def comparison_shape(ix, rep, cls):
             return alg.RatFun.sym('period') * alg.RatFun.sym('U[P]')
         return None
     the_if = None
+    cached = {}   # attribute -> tuple of RatFun: value computed once and kept in self
+    sym = f.qual
+
+    def assign(st):
+        t = st.targets[0]
+        if isinstance(t, ast.Name):
+            if isinstance(st.value, ast.Attribute) and E.self_loc(st.value) in cached and len(cached[E.self_loc(st.value)]) == 1:
+                env[t.id] = cached[E.self_loc(st.value)][0]
+            else:
+                env[t.id] = alg.AlgEval(env, leaf).ev(st.value)
+        elif isinstance(t, ast.Tuple) and E.self_loc(st.value) in cached and len(t.elts) == len(cached[E.self_loc(st.value)]):
+            for e, v in zip(t.elts, cached[E.self_loc(st.value)]):
+                env[e.id] = v
+        elif isinstance(t, ast.Attribute) and E.self_loc(t) is not None:
+            vals = st.value.elts if isinstance(st.value, (ast.Tuple, ast.List)) else [st.value]
+            cached[E.self_loc(t)] = tuple(alg.AlgEval(env, leaf).ev(v) for v in vals)
+        else:
+            raise ValueError('assignment target')
     for st in f.node.body:
         if isinstance(st, ast.Expr) and isinstance(st.value, ast.Constant):
             continue
-        if isinstance(st, ast.Assign) and len(st.targets) == 1 and isinstance(st.targets[0], ast.Name):
-            try:
-                env[st.targets[0].id] = alg.AlgEval(env, leaf).ev(st.value)
-            except ValueError as ex:
-                raise AnalysisError('%s: cannot interpret `%s` (%s)' % (f.where, ast.unparse(st)[:60], ex))
-        elif isinstance(st, ast.If) and the_if is None:
-            the_if = st
-        else:
-            raise AnalysisError('%s: statement `%s` not interpreted' % (f.where, ast.unparse(st)[:50]))
-    sym = f.qual
+        try:
+            if isinstance(st, ast.Assign) and len(st.targets) == 1:
+                assign(st)
+            elif isinstance(st, ast.If) and _is_none_test(st.test) and not st.orelse:
+                # cache miss branch: `if self.X is None: ...; self.X = ...`
+                for q in st.body:
+                    if isinstance(q, ast.Assign) and len(q.targets) == 1:
+                        assign(q)
+                    elif not (isinstance(q, ast.Expr) and isinstance(q.value, ast.Constant)):
+                        raise ValueError('statement in cache branch')
+                if _is_none_test(st.test) not in cached:
+                    raise ValueError('cache branch does not fill self.%s' % _is_none_test(st.test))
+            elif isinstance(st, ast.If) and the_if is None:
+                the_if = st
+            else:
+                raise ValueError('statement form')
+        except ValueError as ex:
+            raise AnalysisError('%s: cannot interpret `%s` (%s)' % (f.where, ast.unparse(st)[:60], ex))
+    for attr in sorted(cached):
+        # the accepted window depends on sampling_period, its unit, the tolerance and the default unit, all of which can change
+        # between calls (set_sampling_period, spec.unit): a value kept in self is stale unless every such writer invalidates it
+        writers = _config_writers(ix, cls)
+        stale = [w.qual for w in writers if not _assigns_none(w, attr)]
+        rep.fail('R-JITTER', f.module.rel, sym, 'cached:self.%s' % attr,
+                 'the accepted gap window is computed once and kept in self.%s; it depends on the sampling period, its unit, the tolerance and the default '
+                 'unit, but %s do not invalidate it (and the default unit is set on another object): after set_sampling_period()/reset() gaps are judged '
+                 'against the old window' % (attr, ', '.join(stale) if stale else 'the writers of ast.unit'), f.node.lineno)
     if the_if is None:
         rep.fail('R-JITTER', f.module.rel, sym, 'shape', 'no gap test', f.node.lineno)
         return
@@ -243,19 +304,91 @@ def offline_gap(ix, rep, mon):
     import re
     ok = False
     X = None
-    m = re.match(r'^range\(len\((\w+)\)-1\)$', it)
-    if m:
-        X = m.group(1)
-        ok = a == '%s[%s+1]-%s[%s]' % (X, tgt, X, tgt)
-    m = re.match(r'^range\(1,len\((\w+)\)\)$', it)
-    if m:
-        X = m.group(1)
-        ok = a == '%s[%s]-%s[%s-1]' % (X, tgt, X, tgt)
-    m = re.match(r'^zip\((\w+),(\w+)\[1:\]\)$', it) or re.match(r'^zip\((\w+)\[:-1\],(\w+)\[1:\]\)$', it)
-    if m and m.group(1) == m.group(2) and isinstance(loop.target, ast.Tuple) and len(loop.target.elts) == 2:
-        X = m.group(1)
-        p, q = [ast.unparse(e) for e in loop.target.elts]
-        ok = a == '%s-%s' % (q, p)
+    why = ''
+    # the time column and the names that hold its length
+    dparam = f.node.args.args[1].arg
+    tcol = None
+    lens = {}
+    for s_ in f.node.body:
+        if isinstance(s_, ast.Assign) and isinstance(s_.targets[0], ast.Name):
+            v = ast.unparse(s_.value).replace(' ', '').replace('"', "'")
+            if v == "%s['time']" % dparam:
+                tcol = s_.targets[0].id
+    for s_ in f.node.body:
+        if isinstance(s_, ast.Assign) and isinstance(s_.targets[0], ast.Name):
+            v = ast.unparse(s_.value).replace(' ', '').replace('"', "'")
+            if v in ("len(%s['time'])" % dparam, 'len(%s)' % tcol):
+                lens[s_.targets[0].id] = True
+
+    def affine(e):
+        """expression -> (coefficient of n, constant) or None; n = number of samples"""
+        if isinstance(e, ast.Constant) and isinstance(e.value, int):
+            return (0, e.value)
+        if isinstance(e, ast.Name) and e.id in lens:
+            return (1, 0)
+        if isinstance(e, ast.Call) and isinstance(e.func, ast.Name) and e.func.id == 'len' and len(e.args) == 1:
+            a = ast.unparse(e.args[0]).replace(' ', '').replace('"', "'")
+            if a in (tcol, "%s['time']" % dparam):
+                return (1, 0)
+            return None
+        if isinstance(e, ast.BinOp) and isinstance(e.op, (ast.Add, ast.Sub)):
+            l, r = affine(e.left), affine(e.right)
+            if l is None or r is None:
+                return None
+            sg = 1 if isinstance(e.op, ast.Add) else -1
+            return (l[0] + sg * r[0], l[1] + sg * r[1])
+        return None
+
+    def index_offset(e, var):
+        """X[i+c] -> (X, c)"""
+        if isinstance(e, ast.Subscript) and isinstance(e.value, ast.Name):
+            sl = e.slice
+            if isinstance(sl, ast.Name) and sl.id == var:
+                return e.value.id, 0
+            if isinstance(sl, ast.BinOp) and isinstance(sl.op, (ast.Add, ast.Sub)) and isinstance(sl.left, ast.Name) and sl.left.id == var \
+                    and isinstance(sl.right, ast.Constant) and isinstance(sl.right.value, int):
+                return e.value.id, sl.right.value if isinstance(sl.op, ast.Add) else -sl.right.value
+        return None
+    argn = c.args[0]
+    if isinstance(argn, ast.Name) and argn.id in defs:
+        argn = defs[argn.id]
+    # strip `* self.normalize`
+    if norm1 and isinstance(argn, ast.BinOp) and isinstance(argn.op, ast.Mult):
+        if ast.unparse(argn.right) == 'self.normalize':
+            argn = argn.left
+        elif ast.unparse(argn.left) == 'self.normalize':
+            argn = argn.right
+    if isinstance(loop.iter, ast.Call) and isinstance(loop.iter.func, ast.Name) and loop.iter.func.id == 'range' and isinstance(loop.target, ast.Name) \
+            and len(loop.iter.args) in (1, 2):
+        ra = loop.iter.args
+        lo = (0, 0) if len(ra) == 1 else affine(ra[0])
+        hi = affine(ra[-1])
+        if isinstance(argn, ast.BinOp) and isinstance(argn.op, ast.Sub):
+            a1, a2 = index_offset(argn.left, loop.target.id), index_offset(argn.right, loop.target.id)
+        else:
+            a1 = a2 = None
+        if lo is None or hi is None or a1 is None or a2 is None or a1[0] != a2[0]:
+            raise AnalysisError('%s: gap loop `%s` / `%s` is not in an interpreted form' % (f.where, it, a))
+        X = a1[0]
+        c1, c2 = a1[1], a2[1]
+        first = (lo[0], lo[1] + c2)       # index of the earlier stamp of the first checked pair: must be 0
+        last = (hi[0], hi[1] + c1)        # index after the later stamp of the last pair: must be n
+        if c1 - c2 != 1:
+            why = 'the loop subtracts %s[i%+d] from %s[i%+d]: not a pair of consecutive time-stamps' % (X, c2, X, c1)
+        elif first != (0, 0):
+            why = 'the first gap checked starts at index %s, not 0: %s' % (_aff(first), 'the first gap is skipped' if first[0] == 0 and first[1] > 0 else 'index out of range')
+        elif last != (1, 0):
+            why = 'the last gap checked ends at index %s-1, not n-1 (n samples): %s' % (_aff(last), 'the final gap(s) are never checked' if (last[0] == 1 and last[1] < 0) else 'index out of range')
+        else:
+            ok = True
+    else:
+        m = re.match(r'^zip\((\w+),(\w+)\[1:\]\)$', it) or re.match(r'^zip\((\w+)\[:-1\],(\w+)\[1:\]\)$', it)
+        if m and m.group(1) == m.group(2) and isinstance(loop.target, ast.Tuple) and len(loop.target.elts) == 2:
+            X = m.group(1)
+            p_, q_ = [ast.unparse(e) for e in loop.target.elts]
+            ok = a == '%s-%s' % (q_, p_)
+            if not ok:
+                why = 'the loop computes `%s`, not later minus earlier' % a
     if X is None:
         raise AnalysisError('%s: loop over `%s` is not one of the recognised consecutive-pair idioms' % (f.where, it))
     # X is the time column
@@ -268,14 +401,18 @@ def offline_gap(ix, rep, mon):
     if ok and is_time:
         rep.ok('R-GAPLOOP', f.module.rel, sym, 'offline:in-loop', 'one check per consecutive pair of time-stamps (n-1 gaps for n samples; none for one sample)', c.lineno)
     else:
-        rep.fail('R-GAPLOOP', f.module.rel, sym, 'offline:in-loop', 'the loop does not check t[i+1]-t[i] for every consecutive pair of the time column '
-                 '(iter `%s`, value `%s`, sequence %s)' % (it, a, tdef), c.lineno)
+        rep.fail('R-GAPLOOP', f.module.rel, sym, 'offline:in-loop', 'the loop does not check every consecutive pair of the time column: %s'
+                 % (why or 'iter `%s`, value `%s`, sequence %s' % (it, a, tdef)), c.lineno)
     unb, _ = flow.possibly_unbound(f.node)
     if unb:
         for nm, s in unb:
             rep.fail('R-UNBOUND', f.module.rel, sym, 'offline:%s' % nm, 'local `%s` may be unbound (one-sample trace)' % nm, s.lineno)
     else:
         rep.ok('R-UNBOUND', f.module.rel, sym, 'offline:locals', 'no local can be unbound on a one-sample trace', f.node.lineno)
+
+
+def _aff(p):
+    return ('n' if p[0] == 1 else '%d*n' % p[0] if p[0] else '') + ('%+d' % p[1] if p[1] or not p[0] else '')
 
 
 def check(ix, rep):
